@@ -368,3 +368,31 @@ func c04ReservedNames(res *Result) {
 		}
 	}
 }
+
+// c04EqualErrors: equal contexts give equal errors - also when a context has several things wrong
+// with it (several keys that are no identifiers, several keys that clash with exported macros)
+func c04EqualErrors(res *Result) {
+	const src = `{% macro m1() export %}1{% endmacro %}{% macro m2() export %}2{% endmacro %}{% macro m3() export %}3{% endmacro %}x`
+	tpl := mustCompile(pongo2.NewSet("c04-equal-errors", &memLoader{files: map[string]string{}}), src)
+	if tpl == nil {
+		return
+	}
+	for _, ctx := range []func() pongo2.Context{
+		func() pongo2.Context { return pongo2.Context{"a-b": 1, "c-d": 2, "e f": 3, "ok": 4, "": 5} },
+		func() pongo2.Context { return pongo2.Context{"m1": 1, "m2": 2, "m3": 3, "fine": 4} },
+		func() pongo2.Context { return pongo2.Context{"m2": 1, "x-y": 2, "m1": 3, "z z": 4} },
+	} {
+		res.Cases++
+		seen := map[string]int{}
+		for i := 0; i < 60; i++ {
+			seen[execOnce(tpl, ctx()).String()]++
+		}
+		if len(seen) != 1 {
+			var outs []string
+			for o, n := range seen {
+				outs = append(outs, fmt.Sprintf("%dx %s", n, o))
+			}
+			oracleFail(res, "history", "c04-equal-contexts-unequal-errors", fmt.Sprintf("60 executions with equal contexts %v", ctx()), strings.Join(outs, " / "), "one outcome")
+		}
+	}
+}
